@@ -32,11 +32,15 @@ def exFiles : Name → File := fun n =>
 def exHistory : List Op :=
   [.load 3 .none (some 20), .touch 1 9, .imp 7, .reloadMeta, .load 2 (.item 21) none, .touch 2 3]
 
-/-- `load_theory(name, limit)` after ANY history of loads, interrupted loads, module imports, touches
-    and metadata reloads leaves in `theory.thy` exactly the specified items: the ok items of the
-    transitive imports in `get_import_order` order, then the own ok items before the limit, each
-    parsed in the context the specification gives (`specLoad`; `k` is the specification's fuel). -/
-theorem load_eq_spec (W : World) (names : List Name) (files : Name → File) (h : List Op)
+/-- `load_theory(name, limit)` that returns normally after ANY history of loads, interrupted loads, module
+    imports, touches and metadata reloads leaves in `theory.thy` exactly the specified items: the ok items
+    of the transitive imports in `get_import_order` order, then the own ok items before the limit, each
+    parsed in the context the specification gives (`specLoad`; `k` is the specification's fuel).
+    PARTIAL with respect to the full statement `result of load = specLoad`: (1) the direction "the
+    specification succeeds ⇒ load_theory does not raise" is not proved (it is what the reference-loader
+    oracle of the harness checks on the implementation); (2) histories containing `Op.edit` (new file
+    contents) are not covered. -/
+theorem load_eq_spec_partial (W : World) (names : List Name) (files : Name → File) (h : List Op)
     (hh : ∀ o ∈ h, o.keepsContent) (fuel : Nat) (n : Name) (lim : Limit) :
     let L := (initState names files).lib
     let r := exec W none fuel (.load n lim) (run W fuel h (initState names files))
@@ -60,13 +64,13 @@ theorem cache_invariant (W : World) (names : List Name) (files : Name → File) 
   run_inv W _ fuel h _ hh (init_inv W names files)
 
 /-- A missing limit is reported: whenever the specification says "limit not found", `load_theory` does
-    not return normally (by `load_eq_spec` a normal return would carry the specified theory). -/
+    not return normally (by `load_eq_spec_partial` a normal return would carry the specified theory). -/
 theorem missing_limit_reported (W : World) (names : List Name) (files : Name → File) (h : List Op)
     (hh : ∀ o ∈ h, o.keepsContent) (fuel : Nat) (n : Name) (lim : Limit) (k : Nat)
     (hs : specLoad W (initState names files).lib k n lim = .error .limit) :
     (exec W none fuel (.load n lim) (run W fuel h (initState names files))).1 ≠ none := by
   intro hr
-  have := load_eq_spec W names files h hh fuel n lim hr k (by rw [hs]; intro h; cases h)
+  have := load_eq_spec_partial W names files h hh fuel n lim hr k (by rw [hs]; intro h; cases h)
   rw [hs] at this
   cases this
 
